@@ -96,6 +96,7 @@ type Searcher struct {
 	remainingBlocksSorted []*block // Sorted by time as specified by sortMode.
 	didFirstFetch         bool
 	qsrs                  []*query.QuerySegmentRequest
+	assignedQSRs          []*query.QuerySegmentRequest // Non-nil for a subsearcher: the only segments it may search.
 	cutOffTimestampInMs   uint64
 	unprocessedQSRs       *list.List
 	processedBlocks       map[string]map[uint16]struct{}
@@ -194,8 +195,10 @@ func getSubsearchIfNeeded(searcher *Searcher) (*subsearch, error) {
 		}
 	}
 	subsearchers[0].qsrs = sortIndexQSRs
+	subsearchers[0].assignedQSRs = sortIndexQSRs
 	subsearchers[0].initUnprocessedQSRs()
 	subsearchers[1].qsrs = otherQSRs
+	subsearchers[1].assignedQSRs = otherQSRs
 	subsearchers[1].initUnprocessedQSRs()
 	subsearchers[1].sortIndexState.forceNormalSearch = true
 	subsearchers[1].segEncToKeyBaseValue += uint32(len(sortIndexQSRs))
@@ -1010,6 +1013,16 @@ func (s *Searcher) initializeQSRs() error {
 	if err != nil {
 		log.Errorf("qid=%v, searcher.initializeQSRs: failed to get sorted QSRs: %v", s.qid, err)
 		return err
+	}
+
+	if s.assignedQSRs != nil {
+		// A subsearcher handles only the segments its parent gave it. (The
+		// call above is still needed for its side effect of setting the
+		// total number of records to be searched.) Loading all segments here
+		// made the subsearcher for segments without a sort index also search
+		// the segments that have one, so their records were returned twice.
+		qsrs = make([]*query.QuerySegmentRequest, len(s.assignedQSRs))
+		copy(qsrs, s.assignedQSRs)
 	}
 
 	s.qsrs = qsrs
